@@ -96,7 +96,7 @@ func (c *webClient) Username() string {
 
 func (c *webClient) Init(username string, perms []string) {
 	c.username = username
-	c.permissions = perms
+	c.permissions = slices.Clone(perms)
 }
 
 func (c *webClient) Permissions() []string {
